@@ -11,10 +11,8 @@
 #define MM ((M) > 0 ? (M) : 1)
 struct inputs { struct st s; uint8_t val[MM]; uint32_t p0; uint32_t limit; };
 #ifdef WITH_LIMIT
-/* C09: ada::get_max_input_length() is replaced by a stub returning the symbolic limit of this query
- * (replay on the real code calls ada::set_max_input_length instead) */
-static uint32_t vk_limit_value = 0xffffffffu;
-uint32_t X__ZN3ada20get_max_input_lengthEv(void) { return vk_limit_value; }
+/* C09: the query's symbolic limit is installed with the REAL ada::set_max_input_length (wrapper vk_set_limit in the
+ * same unit), so every read of the limit inside the operation - inlined or not - sees it. */
 #endif
 
 static void st_pack(const struct st* s, uint8_t* o) {
@@ -43,10 +41,7 @@ void harness(void) {
 #ifdef WITH_LIMIT
   const uint32_t LIMIT = I.limit;
   ASSUME(pre.L <= LIMIT);           /* the URL we start from was handed out under the same limit */
-  vk_limit_value = LIMIT;
-#ifdef VK_REAL_CODE
-  vk_set_limit(0, 0, 0, 0, LIMIT, 0);
-#endif
+  F_vk_set_limit(0, 0, 0, 0, LIMIT, 0);
 #endif
   uint8_t in[36 + NN + MM];
   st_pack(&pre, in);
